@@ -81,13 +81,38 @@ void h_fx_notify(void)
 	for (unsigned s = 0; s < TBL; s++) {
 		unsigned c = nondet_uint();
 		__CPROVER_assume(c <= NF);
+#ifdef FX_ALLOC_FAIL
+		__CPROVER_assume(s == 0 ? c == 0 : c == NF);   /* one subscriber: the failure cases multiply per notification built */
+#endif
 		if (c < NF && !used[c]) { verif_tbl[s] = &verif_f[c]; used[c] = true; } else verif_tbl[s] = NULL;
 	}
 	verif_e.fetcher_table = verif_tbl; verif_e.fetch_table_size = TBL;
 	const char *event = nondet_bool() ? "change" : "remove";
+#ifdef FX_ALLOC_FAIL
+	verif_cj_may_fail = true;   /* C15: every JSON allocation made while a notification is built may fail */
+#endif
 	int r = notify_fetchers(&verif_e, event);
+#ifdef FX_ALLOC_FAIL
+	verif_cj_may_fail = false;
+#endif
 	unsigned gi = nondet_uint();
 	__CPROVER_assume(gi < NF);
+#ifdef FX_ALLOC_FAIL
+	/* a notification may be lost to an allocation failure, but what IS sent is complete, goes out once, and nothing is leaked */
+	if (used[gi] && verif_attempts[gi] > 0) {
+		__CPROVER_assert(verif_attempts[gi] == 1, "C15.notify.at-most-one-notification-per-subscriber");
+		bool ev_ok = false;
+		if (verif_last_event[gi] != NULL) ev_ok = strcmp(verif_last_event[gi], event) == 0;
+		__CPROVER_assert(ev_ok && verif_last_path0[gi] == verif_epath[0] &&
+			verif_last_has_value[gi] == (verif_e.value != NULL) && verif_last_method_type[gi] == cJSON_Number && verif_last_fetch_only[gi] == ((verif_e.flags & FETCH_ONLY_FLAG) != 0),
+			"C15.notify.a-notification-that-is-sent-is-complete");
+	}
+	__CPROVER_assert(used[gi] || verif_attempts[gi] == 0, "C01.notify.nothing-for-peers-that-did-not-subscribe");
+	__CPROVER_assert(verif_cj_live_nodes == 0, "C15.notify.no-json-node-left-behind");
+	(void)r;
+	VERIF_COVER(used[0] && verif_attempts[0] == 0, "a notification lost to an allocation failure");
+	VERIF_COVER(used[0] && verif_attempts[0] == 1, "a notification sent");
+#else
 	if (used[gi]) {
 		__CPROVER_assert(verif_attempts[gi] == 1, "C11.notify.every-subscriber-is-sent-the-event-once-whatever-happens-to-the-others");
 		bool ev_ok = false;
@@ -105,6 +130,7 @@ void h_fx_notify(void)
 	VERIF_COVER(used[0] && used[1] && used[2] && verif_peer_fails[0] && !verif_peer_fails[2] && verif_tbl[0] == &verif_f[0], "first subscriber fails, later ones healthy");
 	VERIF_COVER(verif_tbl[0] == NULL && used[1], "hole before a subscriber");
 	VERIF_COVER(!used[0] && !used[1] && !used[2], "no subscribers");
+#endif
 }
 
 /* ---- fx.subscribe: add_fetch_to_state incl. table growth ---------------------------------------------------------- */
